@@ -38,6 +38,11 @@ def run(tier, seed, work, replay):
     systematic = [
         {"kind": "otp_parallel", "origin": "same-instant-right", "right": True, "n": 8, "users": 4 if tier == "quick" else 20, "delayMs": 15},
         {"kind": "otp_parallel", "origin": "same-instant-wrong", "right": False, "n": 8, "users": 4 if tier == "quick" else 20, "delayMs": 15},
+        {"kind": "otp_phase", "origin": "sub-second-pacing",
+         "probes": [{"gapMs": g, "phaseMs": ph, "right": r}
+                    for ph in ((30, 600) if tier == "quick" else (30, 250, 500, 750, 940))
+                    for g in ((1100, 1900, 2100) if tier == "quick" else (1050, 1100, 1500, 1900, 1960, 2050, 2100, 3000))
+                    for r in (True, False)]},
         {"kind": "otp", "origin": "normal", "steps": [T, W, T]},
         {"kind": "otp", "origin": "rapid", "steps": [F, T, quickfire, T, W, T]},
         {"kind": "otp", "origin": "five-failures-then-right", "steps": [F, W, F, W, F, W, F, W, F, W, T, W, T]},
@@ -59,7 +64,9 @@ def run(tier, seed, work, replay):
     evs = E.read_ndjson(epath)
     devs = E.monitor(work, "Trace_KMThrottle", "Trace_KMThrottle.cfg", epath, cov)
     cov["traces_validated_against_impl"] = len(cases)
-    cov["evaluations"] = sum(1 for e in evs if e["ev"] in ("Attempt", "Otp"))
+    cov["evaluations"] = sum(1 for e in evs if e["ev"] in ("Attempt", "Otp", "OtpPhase"))
+    cov["otp_phase_probes"] = sum(1 for e in evs if e["ev"] == "OtpPhase")
+    cov["otp_phase_probes_refused_as_too_early"] = sum(1 for e in evs if e["ev"] == "OtpPhase" and not e["evaluated"])
     cov["distinct_nontrivial"] = len({json.dumps({k: v for k, v in e.items() if k not in ("i", "trace")}, sort_keys=True)
                                       for e in evs if e["ev"] in ("Attempt", "Otp", "Totals")})
     cov["password_attempts"] = sum(1 for e in evs if e["ev"] == "Attempt") + sum(e.get("attempts", 0) for e in evs if e["ev"] == "Totals")
